@@ -1,4 +1,5 @@
 import PacketVerif.Model.Dhcp4Srv
+import PacketVerif.Model.Dhcp4Frame
 namespace PV.Drv.Dhcp4Srv
 open PV PV.Model.Dhcp4Srv
 
@@ -163,8 +164,50 @@ def checkNew (n : NewCfg) (dump : String) : String :=
       if cfg == mkCfg n then "accept"
       else s!"reject want={showSubnet (mkCfg n).net1} {showSubnet (mkCfg n).net2}"
 
+/-! `dhcp.raw <cfgIdx> <mode> <setup> <ev>;<ev>… @ <now> <cfgdump> <pre> <pre>…` (harness/c08dhcp): every `<ev>` =
+    `<c|s>:<IPv4 source>:<spare capacity>:<payload hex>` is one call of the real `ProcessPacket` on a frame carrying that
+    payload (`c`: to port 67, `s`: to port 68) in a buffer with that many bytes behind the payload; `<pre>` is the state
+    the implementation was in (dumped after `Session.Parse` of the frame).  Reply: per event, what
+    `Model.Dhcp4Frame.processRaw` makes of the bytes from that state — returned error, cursors, lease table (sorted),
+    replies, forged DECLINE (client direction) — joined by ` / `. -/
+
+open PV.Model.Dhcp4Frame in
+def parseRawEv (s : String) : Option (Rx × Bytes) :=
+  match s.splitOn ":" with
+  | [dir, src, extra, hex] => do
+    let p ← fromHex hex
+    if dir != "c" && dir != "s" then none
+    some ({ srcIP := ← nat? src, dstPort := if dir == "s" then 68 else 67, cap := p.length + (← nat? extra) }, p)
+  | _ => none
+
+def errStr : Option Err → String
+  | none => "nil"
+  | some e => e.toString
+
+open PV.Model.Dhcp4Frame in
+def showRaw (rx : Rx) (r : Result) : String :=
+  let leases := (r.state.table.map showLease).mergeSort (fun a b => !(decide (b < a)))
+  let decl := if rx.dstPort == 68 then (if r.forged then "1" else "0") else "-"
+  s!"ret={errStr r.ret} {r.state.next1},{r.state.next2}|{showList leases ";"}|{showReplies r.replies} decl={decl}"
+
+open PV.Model.Dhcp4Frame in
+def rawGroups (cfg : Cfg) (now : Nat) : List String → List String → List String
+  | ev :: evs, pre :: pres =>
+    (match parseRawEv ev, parseState pre with
+     | some (rx, p), some s => outcomeStr (showRaw rx) (processRaw cfg s now rx p)
+     | none, _ => "bad-ev"
+     | _, none => "bad-pre") :: rawGroups cfg now evs pres
+  | [], [] => []
+  | _, _ => ["bad-groups"]
+
 def handle (cmd : String) (args : List String) : Option String :=
   match cmd, args with
+  | "dhcp.raw", _ :: _ :: _ :: evs :: "@" :: now :: cfg :: pres =>
+    match parseCfg cfg, nat? now with
+    | some cfg, some now => some (" / ".intercalate (rawGroups cfg now (evs.splitOn ";") pres))
+    | none, _ => some "bad-cfg"
+    | _, none => some "bad-now"
+  | "dhcp.raw", _ => some "bad-raw"
   | "dhcp.new", [n, dump] =>
     match parseNewCfg n with
     | some n => some (checkNew n dump)
